@@ -30,6 +30,11 @@ def record(ctx, pkg, files, test, prefix, scenarios, watchdog=30, only=None, scr
     return json.load(open(sp)), vlib.scenario_files(ctx, prefix)
 
 
+def single(ctx):
+    """True when this run replays one scenario (--replay); vlib.ALL (second pass without vacuity guards) is a full run."""
+    return ctx.only is not None and ctx.only is not getattr(vlib, "ALL", None)
+
+
 def sig(contract):
     def f(fail):
         ev = fail.get("event", {})
@@ -50,7 +55,7 @@ def confirm_hangs(ctx, fails, rerun):
             json.dump(r, open(f["replay"], "w"), indent=1)
         except Exception:
             pass
-        if f["event"].get("ev") != "hang" or ctx.only is not None:
+        if f["event"].get("ev") != "hang" or single(ctx):
             confirmed.append(f)
             continue
         s2 = rerun(idx)
